@@ -4,13 +4,16 @@ _COMMON = [
 ]
 SPEC = dict(
     harness=['h_tree.c'],
+    configs=lambda tier: [dict(name='packed'), dict(name='unpacked', cflags=['-DA_SIZE_POINTER=1'])],
+    parallel_configs=2,
+    workers={'quick': 12, 'thorough': 16},
     level='exploration',
     rule='(1) every AVL shape reachable through the real library with <= N nodes (N=15 quick, 20 thorough) is enumerated by a fixpoint over '
          'insert/remove transitions; on each shape EVERY insert position (n+1 gaps), every remove (n nodes), every duplicate insert (with a fresh equal-key node and with the resident node object itself) and every '
          'lookup is executed through the library and followed by the invariant walker (BST order, |hR-hL|<=1, stored factor == hR-hL, parent '
          'links, node identity, element set == model) - because the code only compares keys this is every (state, operation) pair of every '
          'history whose tree stays within N nodes. (2) seeded random/adversarial histories (9 patterns, key spaces 8..4096, a_avl_insert and the '
-         'manual link + a_avl_insert_adjust path) with the walker after every call. distinct_nontrivial = number of distinct canonical '
+         'manual link + a_avl_insert_adjust path) with the walker after every call. Both node layouts are built and driven: the packed parent/meta word (default on this platform) and the separate-member layout (-DA_SIZE_POINTER=1; N-2 in quick). distinct_nontrivial = number of distinct canonical '
          '(structure + stored factors) trees on which the walker ran after an operation.',
     exhaustive={'quick': 'all (shape, operation) pairs for reachable AVL shapes with <= 15 nodes',
                 'thorough': 'all (shape, operation) pairs for reachable AVL shapes with <= 20 nodes'},
@@ -23,6 +26,6 @@ SPEC = dict(
                'real code and judged by a structural walker + sorted-array model after every call) plus long random/adversarial histories up to 4096 '
                'nodes. Exhaustive-in-the-small is the right level: rebalancing cases depend only on local shape, and all of them occur below ~12 nodes.',
     level_note='trusted: the harness walker/model; shapes are re-materialised by cloning library-produced structures through the public node fields; '
-               '32-bit (unpacked parent/factor) node layout not built',
+               'the unpacked node layout is built with -DA_SIZE_POINTER=1 on this 64-bit host (pointers stay 8 bytes wide)',
     technique='bounded-exhaustive shape enumeration + random histories, invariant walker and reference model after every call, ASan/UBSan',
 )
